@@ -224,12 +224,18 @@ def arr_case(draw):
     for i in range(p - 1, -1, -1):          # and from the right: r_i <= n_i r_{i+1}
         ranks[i] = min(ranks[i], n[i] * ranks[i + 1])
     illc = draw(st.sampled_from([False, False, True]))
+    xscale = None
+    if not illc and draw(st.sampled_from([False, False, True])):
+        # badly scaled features: every basis function is a coordinate itself and the data are of size 1e-4 / 1e3, so that Psi is the
+        # well-conditioned Psi of O(1) data times 10^(k p) -- least squares (with a RELATIVE cut-off) does not care
+        xscale = draw(st.sampled_from([-4, -3, 3]))
+        phi = [[{'family': 'identity', 'index': draw(st.integers(0, d - 1))} for _ in f] for f in phi]
     if illc:
         # moderately ill-conditioned class: monomials on a short interval, many more snapshots than core unknowns
         same = draw(st.booleans())       # every mode on one coordinate: strongly correlated factors
         phi = [[{'family': 'monomial', 'index': 0 if same else draw(st.integers(0, d - 1)), 'exponent': 2 * e} for e in range(len(f))] for f in phi]
     return {'d': d, 'm': draw(st.sampled_from([3, 5, 8, 12])) if not illc else draw(st.sampled_from([30, 60])), 'phi': phi, 'ranks': ranks,
-            'seed': draw(gen.SEED), 'dy': draw(st.integers(1, 2)), 'illcond': illc,
+            'seed': draw(gen.SEED), 'dy': draw(st.integers(1, 2)), 'illcond': illc, 'x_scale_exp': xscale,
             'repeats': draw(st.integers(1, 4)) if not illc else draw(st.sampled_from([2, 3, 4])), 'exact': draw(st.booleans()) and not illc,
             'data_form': draw(c15.DATA_FORM), 'y_form': draw(Y_FORM)}
 
@@ -238,6 +244,8 @@ def body_arr(c):
     x = c15.data(c)
     illc = bool(c.get('illcond'))
     m = c['m']
+    if c.get('x_scale_exp'):
+        x = np.asarray(x, dtype=float) * 10.0 ** c['x_scale_exp']
     if illc:
         # shrink the data interval until the transformed data matrix has its smallest non-zero singular-value ratio between 3e-8
         # and 1e-6 (deterministic in the case): cond(Psi) ~ 1e7, far from the 1e-13 cut-off but well inside the region where a
@@ -322,6 +330,8 @@ def body_arr(c):
         lab.add('single_function_mode')
     if any(s_['family'] in c15.USER_FAMS for f in c['phi'] for s_ in f):
         lab.add('user_defined_function')
+    if c.get('x_scale_exp'):
+        lab.add('badly_scaled_features')
     if illc:
         lab.add('moderately_ill_conditioned')
         cn = np.linalg.svd(M, compute_uv=False)
